@@ -56,28 +56,30 @@ type Request struct {
 type Tamper func(kind string, rep *messages.KDCRepFields, enc *messages.EncKDCRepPart, key types.EncryptionKey, usage uint32) (types.EncryptionKey, uint32)
 
 type KDC struct {
-	Realm           string
-	mu              sync.Mutex
-	princs          map[string]*Principal
-	RequirePreauth  bool
-	TicketLifetime  time.Duration
-	ServiceLifetime time.Duration // lifetime of service tickets (0 = TicketLifetime)
-	RenewLifetime   time.Duration
-	UDPTooBig       bool                                     // every UDP request is answered KRB_ERR_RESPONSE_TOO_BIG: the client must come back over TCP
-	HintOrder       int                                      // with ExtraHints: 0 = INFO2, INFO, PW-SALT; 1 = INFO, INFO2, PW-SALT; 2 = PW-SALT, INFO, INFO2 (the order is not significant)
-	ExtraHints      bool                                     // PREAUTH_REQUIRED / FAILED e-data also carries ETYPE-INFO (another etype first) and PW-SALT after ETYPE-INFO2
-	Backdate        time.Duration                            // initial tickets carry an authtime/starttime this far in the past
-	Referrals       map[string]string                        // service host suffix -> next realm (referral TGT krbtgt/NEXT@Realm)
-	CrossKeys       map[string]map[int32]types.EncryptionKey // realm -> keys of krbtgt/realm@Realm
-	Issues          []Issue
-	Requests        []Request
-	Tamper          Tamper
-	ErrorCode       int32 // when non-zero every request is answered with this KRB-ERROR
-	ReplyOverride   func(req []byte, reply []byte) []byte
-	StrictCRealm    bool // compare the authenticator's crealm with the TGT's (RFC 4120 3.2.3)
-	udp             *net.UDPConn
-	tcp             *net.TCPListener
-	Addr            string
+	Realm             string
+	mu                sync.Mutex
+	princs            map[string]*Principal
+	RequirePreauth    bool
+	TicketLifetime    time.Duration
+	ServiceLifetime   time.Duration // lifetime of service tickets (0 = TicketLifetime)
+	RenewLifetime     time.Duration
+	LenientRenewUsage bool                                     // a renewal request for a SERVICE ticket whose authenticator is under key usage 11 is served (gokrb5 picks the usage by the presented ticket's sname; RFC 4120 7.5.1 says 7: a strict KDC answers BAD_INTEGRITY and the client asks afresh)
+	OmitStartTime     bool                                     // tickets and replies leave the OPTIONAL starttime out (RFC 4120 5.3, 5.4.2: absent = authtime)
+	UDPTooBig         bool                                     // every UDP request is answered KRB_ERR_RESPONSE_TOO_BIG: the client must come back over TCP
+	HintOrder         int                                      // with ExtraHints: 0 = INFO2, INFO, PW-SALT; 1 = INFO, INFO2, PW-SALT; 2 = PW-SALT, INFO, INFO2 (the order is not significant)
+	ExtraHints        bool                                     // PREAUTH_REQUIRED / FAILED e-data also carries ETYPE-INFO (another etype first) and PW-SALT after ETYPE-INFO2
+	Backdate          time.Duration                            // initial tickets carry an authtime/starttime this far in the past
+	Referrals         map[string]string                        // service host suffix -> next realm (referral TGT krbtgt/NEXT@Realm)
+	CrossKeys         map[string]map[int32]types.EncryptionKey // realm -> keys of krbtgt/realm@Realm
+	Issues            []Issue
+	Requests          []Request
+	Tamper            Tamper
+	ErrorCode         int32 // when non-zero every request is answered with this KRB-ERROR
+	ReplyOverride     func(req []byte, reply []byte) []byte
+	StrictCRealm      bool // compare the authenticator's crealm with the TGT's (RFC 4120 3.2.3)
+	udp               *net.UDPConn
+	tcp               *net.TCPListener
+	Addr              string
 }
 
 var AllEtypes = []int32{18, 17, 20, 19, 23, 16}
@@ -324,14 +326,18 @@ func (k *KDC) handleAS(raw []byte) []byte {
 		types.SetFlag(&fl, 8)
 	}
 	start := now.Add(-k.Backdate).Truncate(time.Second)
-	etp := messages.EncTicketPart{Flags: fl, Key: skey, CRealm: k.Realm, CName: req.ReqBody.CName, AuthTime: start, StartTime: start, EndTime: end, RenewTill: renew, CAddr: req.ReqBody.Addresses}
+	stime := start
+	if k.OmitStartTime {
+		stime = time.Time{}
+	}
+	etp := messages.EncTicketPart{Flags: fl, Key: skey, CRealm: k.Realm, CName: req.ReqBody.CName, AuthTime: start, StartTime: stime, EndTime: end, RenewTill: renew, CAddr: req.ReqBody.Addresses}
 	tet, _ := pickEtype(AllEtypes, svc.Keys)
 	tkt, err := sealTicket(etp, svc.Keys[tet], svc.KVNO, k.Realm, sname)
 	if err != nil {
 		return krbErr(k.Realm, sname, 60, nil)
 	}
 	enc := messages.EncKDCRepPart{Key: skey, LastReqs: []messages.LastReq{{LRType: 0, LRValue: start}}, Nonce: req.ReqBody.Nonce, Flags: fl,
-		AuthTime: start, StartTime: start, EndTime: end, RenewTill: renew, SRealm: k.Realm, SName: sname, CAddr: req.ReqBody.Addresses}
+		AuthTime: start, StartTime: stime, EndTime: end, RenewTill: renew, SRealm: k.Realm, SName: sname, CAddr: req.ReqBody.Addresses}
 	rep := messages.KDCRepFields{PVNO: 5, MsgType: 11, PAData: info, CRealm: k.Realm, CName: req.ReqBody.CName, Ticket: tkt}
 	key, usage := ckey, uint32(3)
 	if k.Tamper != nil {
@@ -429,6 +435,9 @@ func (k *KDC) handleTGS(raw []byte) []byte {
 		return krbErr(k.Realm, sname, 32, nil)
 	}
 	ab, err := crypto.DecryptEncPart(ap.EncryptedAuthenticator, tgt.Key, 7)
+	if err != nil && k.LenientRenewUsage && types.IsFlagSet(&req.ReqBody.KDCOptions, 30) {
+		ab, err = crypto.DecryptEncPart(ap.EncryptedAuthenticator, tgt.Key, 11)
+	}
 	if err != nil {
 		return krbErr(k.Realm, sname, 31, nil)
 	}
@@ -509,12 +518,16 @@ func (k *KDC) handleTGS(raw []byte) []byte {
 		types.SetFlag(&fl, 8)
 	}
 	start := now.Truncate(time.Second)
+	lr := start
+	if k.OmitStartTime {
+		start = time.Time{}
+	}
 	etp := messages.EncTicketPart{Flags: fl, Key: skey, CRealm: tgt.CRealm, CName: tgt.CName, AuthTime: tgt.AuthTime, StartTime: start, EndTime: end, RenewTill: renew, CAddr: tgt.CAddr}
 	tkt, err := sealTicket(etp, skeyOf[et], kvno, k.Realm, issuedSName)
 	if err != nil {
 		return krbErr(k.Realm, sname, 60, nil)
 	}
-	enc := messages.EncKDCRepPart{Key: skey, LastReqs: []messages.LastReq{{LRType: 0, LRValue: start}}, Nonce: req.ReqBody.Nonce, Flags: fl,
+	enc := messages.EncKDCRepPart{Key: skey, LastReqs: []messages.LastReq{{LRType: 0, LRValue: lr}}, Nonce: req.ReqBody.Nonce, Flags: fl,
 		AuthTime: tgt.AuthTime, StartTime: start, EndTime: end, RenewTill: renew, SRealm: k.Realm, SName: issuedSName, CAddr: tgt.CAddr}
 	rep := messages.KDCRepFields{PVNO: 5, MsgType: 13, CRealm: tgt.CRealm, CName: tgt.CName, Ticket: tkt}
 	key, usage := tgt.Key, uint32(8)
